@@ -38,6 +38,7 @@ from ..dimensions import DataId, DimensionGroup
 from .convert_args import convert_order_by_args, convert_where_args
 from .driver import QueryDriver
 from .expression_factory import ExpressionProxy
+from .result_specs import ResultSpec
 from .tree import OrderExpression, Predicate, QueryTree
 
 
@@ -154,6 +155,8 @@ class QueryBase(ABC):
 class QueryResultsBase(QueryBase):
     """Common base class for query result objects with countable rows."""
 
+    _spec: ResultSpec
+
     @property
     @abstractmethod
     def dimensions(self) -> DimensionGroup:
@@ -232,6 +235,14 @@ class QueryResultsBase(QueryBase):
         if limit is not None and limit < 0:
             raise InvalidQueryError(f"Query limit must not be negative (got {limit}).")
         return self._copy(self._tree, limit=limit)
+
+    def any(self, *, execute: bool = True, exact: bool = True) -> bool:
+        # Docstring inherited.
+        if self._spec.limit == 0:
+            # Results sliced down to no rows have none, whatever the query
+            # itself would match.
+            return False
+        return super().any(execute=execute, exact=exact)
 
     def where(
         self,
